@@ -104,6 +104,12 @@ class Ctx:
 
         return self.pmap(call_forked, [(fn, it) for it in items], chunksize)
 
+    def pmap_chunks(self, module, fn_name, args, chunksize=1):
+        """pmap_forked for chunk workers taking one JSON-able argument; see mc/explore/forked.call_chunk."""
+        from mc.explore.forked import call_chunk
+
+        return self.pmap(call_chunk, [(module, fn_name, a) for a in args], chunksize)
+
     def close(self):
         if self._pool is not None:
             self._pool.terminate()
@@ -312,7 +318,12 @@ def run_property(prop, tier, seed, quiet=False):
 def replay(prop, path, quiet=False):
     mod = importlib.import_module("mc.props." + prop.lower())
     doc = json.load(open(path, encoding="utf-8"))
-    found = mod.judge_case(doc["case"])
+    if isinstance(doc["case"], dict) and doc["case"].get("kind") == "chunk" and "module" in doc["case"]:
+        from mc.explore.forked import replay_chunk
+
+        found = replay_chunk(doc["case"])
+    else:
+        found = mod.judge_case(doc["case"])
     if found:
         if not quiet:
             for v in found:
